@@ -182,7 +182,8 @@ def pvs_spec(draw):
     devs = []
     for _ in range(draw(st.integers(0, 7))):
         kind = draw(st.sampled_from(["Hdd", "Hdd", "Hdd", "CdRom", "Fdd", "NetworkAdapter"]))
-        devs.append({"kind": kind, "system_name": draw(st.sampled_from(["Fedora-0.hdd", "harddisk1.hdd", "d & <e>.hdd", "/Users/x/a b.hdd", "cd.iso", None])),
+        devs.append({"kind": kind, "system_name": draw(st.sampled_from(["Fedora-0.hdd", "harddisk1.hdd", "d & <e>.hdd", "/Users/x/a b.hdd", "cd.iso", None,
+                                                                      "仮想ディスク" * 20 + "\U0001F5B4\U0001F98A.hdd", "Жёсткий диск е\u0301.hdd"])),
                      "first": draw(st.booleans()),
                      "partitions": draw(st.sampled_from([None, None, None, ["/dev/disk0s1"], ["/dev/disk0s1", "/dev/disk0s2"]]))})
     return {"kind": "pvs", "devices": devs, "comments": draw(st.booleans())}
